@@ -184,7 +184,9 @@ func (m *monitor) hook(v *sim.View, ev *sim.Event) {
 		}
 		return
 	}
-	m.hookEvals++
+	if !onlyTimestamps(ev.Before, ev.After) {
+		m.hookEvals++ // counted without wall-clock-only writes so that the counter is reproducible; those are judged all the same
+	}
 	if len(m.lastEvents) < 400 {
 		m.lastEvents = append(m.lastEvents, ev.Short())
 	}
